@@ -256,12 +256,16 @@ def _terms(cls, res):
     for nm, t in valid.items():
         _expect(res, "C16:term_valid:%s:%s" % (nm, cls), "solvePDE on %s with a term of kind %s" % (cls, nm),
                 _exc(lambda: pf.solvePDE(pf.CellVariable(mesh, 1.0), [M, v, t])), None)
+    # the unknown object at every position of lists made of the documented kinds: matrix + vector, with a genuine
+    # (matrix, vector) pair, with a transient term, and alone
+    contexts = {"M,v": [M, v], "pair,M": [(M, v), M], "transient,v,M": [pf.transientTerm(one, 0.5, 1.0), v, M], "alone": []}
     for nm, t in bad.items():
-        for pos in (0, 2):
-            lst = [M, v]
-            lst.insert(pos, t)
-            _expect(res, "C16:term_bad:%s" % nm, "solvePDE on %s with a term of kind %s" % (cls, nm),
-                    _exc(lambda: pf.solvePDE(pf.CellVariable(mesh, 1.0), lst)), TypeError)
+        for cname, ctxl in contexts.items():
+            for pos in range(len(ctxl) + 1):
+                lst = list(ctxl)
+                lst.insert(pos, t)
+                _expect(res, "C16:term_bad:%s" % nm, "solvePDE on %s with a term of kind %s at position %d of [%s]" % (cls, nm, pos, cname),
+                        _exc(lambda: pf.solvePDE(pf.CellVariable(mesh, 1.0), lst)), TypeError)
     # an unknown term must not have modified the variable before failing
     phi = pf.CellVariable(mesh, U.generic_array(tuple(int(k) for k in mesh.dims)))
     before = np.array(phi._value)
